@@ -2,16 +2,11 @@
 from ..core.report import DOMAIN_D
 from ..rules import eager
 
-_E1 = {}
-
-
 def e1(idx):
-    """One E1 run per Index (all library functions, 3 rounds for call-site hints)."""
-    k = id(idx)
-    if k not in _E1:
-        _E1.clear()
-        _E1[k] = eager.collect(idx)
-    return _E1[k]
+    """One E1 run per Index (all library functions, 3 rounds for call-site hints); cached ON the index object."""
+    if not hasattr(idx, "_e1_cache"):
+        idx._e1_cache = eager.collect(idx)
+    return idx._e1_cache
 
 
 def lib_module_names(idx):
@@ -22,3 +17,9 @@ NARROW_PHASE = ["distance3d.gjk._gjk_jolt", "distance3d.gjk._gjk_original", "dis
                 "distance3d.gjk._gjk_nesterov_accelerated", "distance3d.gjk._gjk_nesterov_accelerated_primitives",
                 "distance3d.gjk", "distance3d.mpr", "distance3d.epa", "distance3d.minkowski", "distance3d.mesh",
                 "distance3d.self_collision", "distance3d.colliders", "distance3d.geometry", "distance3d.utils"]
+
+def e2(idx):
+    from ..rules import frame
+    if not hasattr(idx, "_e2_cache"):
+        idx._e2_cache = frame.run_engine(idx, None)
+    return idx._e2_cache
